@@ -100,8 +100,9 @@ Step(p) ==
          \E c \in ById(e.conn) : e.req \in Reqs /\
             (CASE e.k = "unbind" -> Same [] hs[c][e.req] = "inline" -> ConnInlinePanic(c) [] OTHER -> HPanic(c, e.req)) /\ Consume
     \* ---- Stop callers
-    [] e.ev = "stop_call" -> StopBegin(e.s) /\ Consume
-    [] IsGate(e, "stop.closed") -> (\E s \in Stoppers : StopClose(s)) /\ Consume
+    \* the call is logged before Stop runs: its first step (the read lock) is taken lazily, in front of the first gate
+    [] e.ev = "stop_call" -> Same /\ Consume
+    [] IsGate(e, "stop.closed") -> \E s \in Stoppers : (StopBegin(s) /\ Keep) \cdot (StopClose(s) /\ Consume)
     [] IsGate(e, "stop.cancelled") -> (\E s \in Stoppers : StopCancel(s)) /\ Consume
     [] e.ev = "stop_ret" -> StopWait(e.s) /\ Consume
     \* ---- clients
